@@ -23,7 +23,15 @@ use swift_mt_message::errors::ParseError;
 #[derive(Clone, Debug, Serialize, Deserialize)]
 pub enum Case {
     Deleted { mt: String, tag: String, place: String, is_marker: bool, text: String },
-    Corrupted { mt: String, tag: String, content: String, text: String },
+    Corrupted {
+        mt: String,
+        tag: String,
+        content: String,
+        text: String,
+        /// long-content class: whether the content is accepted is left to C05 / C01; only the error is judged
+        #[serde(default)]
+        acceptance_not_judged: bool,
+    },
 }
 
 fn v(l: &mut Local, mt: &str, kind: &str, tag: &str, clause: &str, what: String, case: &Case) {
@@ -143,10 +151,11 @@ pub fn judge(_cfg: &Config, case: &Case, l: &mut Local, stratum: &str) {
                 }
             }
         }
-        Case::Corrupted { mt, tag, content, text } => {
+        Case::Corrupted { mt, tag, content, text, acceptance_not_judged } => {
             let ops = crate::registry::msg(mt).unwrap();
             match guard(|| (ops.parse_b4)(text)) {
                 Err(_) => l.eval(stratum, "panic(C07)", false, 0),
+                Ok(Ok(_)) if *acceptance_not_judged => l.eval(stratum, "accepted(not judged here)", false, 0),
                 Ok(Ok(_)) => {
                     l.eval(stratum, "accepted", true, hash_bytes2(mt, text));
                     v(l, mt, "corrupted", tag, "accepted", format!("MT{mt}: a message whose field {tag} has content outside its format is accepted"), case);
@@ -270,12 +279,32 @@ pub fn run(cfg: &Config) -> i32 {
             for (lab, nc) in mutate::corruptions(&toks[k].content) {
                 let mut fs = toks.clone();
                 fs[k].content = nc.clone();
-                let case = Case::Corrupted { mt: mt.to_string(), tag: toks[k].tag.clone(), content: nc, text: tok::render(&fs, false, false) };
+                let case = Case::Corrupted { mt: mt.to_string(), tag: toks[k].tag.clone(), content: nc, text: tok::render(&fs, false, false), acceptance_not_judged: false };
                 let st = format!("MT{mt}/corrupt:{lab}");
                 if l.want_sample(&format!("corrupt:{lab}")) {
                     l.sample(&format!("corrupt:{lab}"), json!({"case": case}));
                 }
                 judge(cfg, &case, l, &st);
+            }
+        }
+        // long contents (several hundred characters) that no field format admits: every field, narrative ones
+        // included, with its own content followed by lines up to 300 and 700 characters in total, one of them 90
+        // characters long. Where the message is rejected because of it, the error must carry the whole content
+        if vi % 4 == 1 {
+            for k in 0..toks.len() {
+                for total in [300usize, 700] {
+                    let mut nc = toks[k].content.clone();
+                    nc.push_str(&format!("\n{}", "W".repeat(90)));
+                    let mut n = 0;
+                    while nc.len() < total {
+                        n += 1;
+                        nc.push_str(&format!("\nEXTRA LINE NUMBER {n} OF THE CONTENT"));
+                    }
+                    let mut fs = toks.clone();
+                    fs[k].content = nc.clone();
+                    let case = Case::Corrupted { mt: mt.to_string(), tag: toks[k].tag.clone(), content: nc, text: tok::render(&fs, false, false), acceptance_not_judged: true };
+                    judge(cfg, &case, l, &format!("MT{mt}/corrupt:long-{total}"));
+                }
             }
         }
     });
